@@ -59,7 +59,7 @@ def gen_slot(rng, fault=0.0, hostile=False, excs=None, debug=None, prefix='', nv
     slot = {'debug': bool(rng.random() < 0.3) if debug is None else debug,
             'variables': {}, 'functions': {}, 'listeners': {}}
     for k in range(rng.randrange(0, 5) if nvars is None else nvars):
-        slot['variables']['%sv%d' % (prefix, k)] = pick_value(rng, hostile)
+        slot['variables']['%sv_%d' % (prefix, k)] = pick_value(rng, hostile)
     for k in range(rng.randrange(0, 4)):
         slot['functions']['%sF%d' % (prefix, k)] = gen_fn_script(rng, fault, hostile, excs)
     if rng.random() < 0.15:
@@ -81,7 +81,7 @@ def slot_env(slot, extra_unbound=()):
     for name, script in slot['functions'].items():
         fns[name] = 1 if any(a['a'] in ('echo',) for a in script) else len(name) % 3
     fns = dict((k, v) for k, v in fns.items() if k not in ('SUM', 'IF', 'ABS', 'LEN'))
-    return Env(variables=sorted(slot['variables']), unbound=['u0', 'zz_top'] + list(extra_unbound),
+    return Env(variables=sorted(slot['variables']), unbound=['u_0', 'zz_top'] + list(extra_unbound),
                functions=fns, cells=True)
 
 
